@@ -8,13 +8,27 @@ the real weight matrix (kernel x volume, captured from the real call: `exp` is n
 convenience functions are compared with the model's `applyRow` / `spatialGradients`.
 Oracle (independent of the model): constants -> 0 for every variant; moment-corrected gradient of a
 random affine field = its slope at every vertex whose neighbourhood spans space (exact rank test on the
-generator's rational coordinates); convenience function = explicit matrices applied by hand.
+generator's rational coordinates); convenience function = explicit matrices applied by hand.  Tolerances are
+derived from the conditioning of the problem, computed by the harness itself (own geometry + the weights the real
+call used): C 2^-52 cond(M_i) rowsum_i max|f| with C = 1000 (see ASSUMPTIONS).
+
+Every mesh is evaluated in two phases.  (1) Each option combination on its own freshly built object: oracle + model.
+(2) ALL option combinations of the mesh - with value-only changes of single keywords (moment_matrix, consider_volume,
+use_effective_volume, alpha, kernel, n_hop, order1_only, normals, mode), exact repeats, "A, B, A" returns and three
+spellings of the call (every option explicit / defaults omitted / n_hop and kernel positional) in between - one after
+another on ONE live object that carries user data, nothing cleared or rebuilt in between; after every call the three
+clauses on the live object, the result compared with the same call on a freshly built equal object (computed in phase 1
+or beforehand, so that the history is not disturbed) and with the exact model, the data array and the object's user data
+compared with their snapshots.
 
 Stream `order1` (second-order meshes differentiated on their first-order vertices, `order1_only=True`): tet2 (and hex2
 without volume weighting: femio has no hex2 volume) meshes whose corner and mid-edge nodes are interleaved in storage.
 The graph vertices are the corner nodes in storage order (own computation from the connectivity, not femio's filter);
 fields are given on ALL nodes, as the convenience function expects them; the explicit matrices are applied by hand to
 the corner rows.  The model is fed the first-order sub-problem (corner nodes, corner connectivity).
+Stream `translated`: meshes 1e3 .. 1e7 element sizes away from the origin (what an exact-rational model cannot see:
+formulas in absolute positions are equal over Q and cancel in binary64), with the metamorphic relation operator(translated
+mesh) = operator(mesh before the translation) (`C15_translation_invariant`).
 """
 import itertools
 from fractions import Fraction as F
@@ -26,36 +40,86 @@ from . import meshgen as MG
 
 PROP = 'C15'
 LEAN_MODULES = ['Femio.Props.C15']
-THEOREMS = ['C15_const_zero', 'C15_affine_exact', 'C15_convenience', 'det3_eq_det']
+THEOREMS = ['C15_const_zero', 'C15_affine_exact', 'C15_convenience', 'det3_eq_det', 'C15_translation_invariant',
+            'C15_moment_expanded']
 PARTIAL = ['the weights w_ij (distance kernel exp / gauss x effective or mean volume) are inputs of the model, read back from '
            'the real call; the theorems hold for every weight function, so nothing about exp is needed',
-           'floating point (np.linalg.inv, sqrt) is runtime: the exact model and the real matrices agree within the stated '
-           'condition-number-scaled tolerance; guards (distinct vertices, non-zero weight sums) are evaluated per case']
+           'floating point (np.linalg.inv, sqrt, cancellation) is runtime: the theorems are identities over a field; the exact '
+           'model and the real matrices agree within the stated condition-number-scaled tolerance; guards (distinct vertices, '
+           'non-zero weight sums) are evaluated per case.  In particular C15_translation_invariant / C15_moment_expanded say '
+           'that formulas in absolute positions are EQUAL to the modelled ones over Q: their loss of precision far from the '
+           'origin is seen by the oracle (stream translated) only, never by the exact model',
+           'history independence (a call does not depend on earlier calls on the same object) is not a theorem: the model is a '
+           'pure function; it is checked on the real code by the live sequences (comparison with freshly built objects)']
 RULE = ('conforming tet / hex bricks (1..2 or 1..3 cells per direction, optional voids) under a random rational affine '
         'map (sheared / graded) with optional per-node jitter, arbitrary node / element ids in ascending / descending / '
-        'shuffled storage order; crossed with mode (nodal, elemental) x n_hop (1,2,3) x kernel (none, exp, gauss with '
-        'random alpha) x consider_volume x use_effective_volume x moment_matrix; fields: constants of random magnitude, '
-        'random affine fields, random fields (convenience clause). A case is non-trivial when the graph has at least '
-        'one vertex with >= 3 neighbours; distinct = distinct (mesh, options). Vertices whose neighbourhood does not '
-        'span space (exact rank < 3) are outside the exactness clause and are counted in a separate stream. '
+        'shuffled / looks-sorted storage order; 4 option combinations per mesh drawn without replacement from mode (nodal, '
+        'elemental) x n_hop (1,2,3) x kernel (none, exp, gauss with random alpha) x moment_matrix, with random consider_volume '
+        'x use_effective_volume; fields (one set per mesh): constants of random magnitude, random affine fields, random fields '
+        '(convenience clause). Phase 1: every combination on a freshly built object (oracle + model). Phase 2 (sequence): the '
+        'same combinations in shuffled order on ONE live object carrying user data, interleaved with 6 (quick) / 8 extra calls: '
+        'the previous call with the VALUE of one keyword changed (moment_matrix, consider_volume, use_effective_volume, alpha, '
+        'kernel, n_hop, order1_only (legal no-op on first-order meshes), normals (None / False / True (nodal) / user array), '
+        'mode), often followed by the call before it again (A, B, A), exact repeats of the previous or of an earlier call; every '
+        'call spelled with all options explicit / defaults omitted / n_hop and kernel positional, convenience function before or '
+        'after the explicit matrices; after every call: the three clauses on the live object, convenience result = same call on a '
+        'freshly built equal object = exact model, data array and user data (ids, coordinates, connectivity, a nodal and an '
+        'elemental variable) unchanged. With the normals option only constants -> 0, convenience = matrices and equality with a '
+        'fresh object are asserted. '
+        'A case is non-trivial when the graph has at least '
+        'one vertex with >= 3 neighbours; distinct = distinct (mesh, options) resp. (mesh, sequence of calls). Vertices whose '
+        'neighbourhood does not span space (exact rank < 3) are outside the exactness clause and are counted in a separate stream. '
         'Stream order1: the same tet / hex bricks promoted to tet2 / hex2 (straight mid-edge nodes, own ids, node table '
         'shuffled so that corner and mid-edge nodes are interleaved; non-trivial only when they are), nodal mode with '
         'order1_only=True, fields defined on all nodes; tet2 with effective-volume weighting or none, hex2 without '
         'volume weighting. '
         'Stream scaled: the same meshes with every coordinate multiplied by 1/1024, 500, 2000 (cell size in coordinate units; '
-        'kernel alpha scaled along), all tolerances relative. Stream same-object: operator built, node positions of the SAME '
+        'kernel alpha scaled along), all tolerances relative. '
+        'Stream translated: 6 (quick) / 9 meshes in a length unit 1, 1/3, 3/10, 7/5 (non-dyadic: coordinates are rounded) '
+        'translated by 1e3, 1e4, 1e5, 1e6, 1e7 element sizes (every magnitude in every run; isotropic, anisotropic like projected '
+        'map coordinates, along one axis; integer or with a fractional part; once per run the literal UTM offset (431250, 3912500, '
+        '128) with metre-size elements); every mode x n_hop x kernel with the moment matrix (and half of them without); fields: '
+        'constant, affine with values of the size of the coordinates, affine centred at the mesh (evaluated over the rationals); '
+        'plus the metamorphic relation operator(translated) = operator(before the translation). '
+        'Streams order1 / scaled / translated run phase 2 as well (2-3 extra calls). '
+        'Stream same-object: operator built (explicit matrices, convenience function or both), node positions of the SAME '
         'object replaced through the public setter (orientation-preserving rational affine map, no direction fixed), '
         'operator built again without clearing any cache; the property is evaluated against the new positions.')
 ASSUMPTIONS = [
-    'floating point: the real matrices are compared with the exact rational model within 1e-9 * max(1, cond(M)) * '
-    'scale (np.linalg.inv / sqrt / exp accuracy is runtime, not modelled)',
+    'floating point, oracle: |computed gradient - true gradient| <= C 2^-52 cond(M_i) (rowsum_i(|G|) (max|f| + [elemental] '
+    '|a|_1 max|x|) + cond(M_i) max|a|) with C = 1000 (the last term: left residual of the explicit LU inverse femio uses, '
+    'relevant only when kernel weights of very different magnitude make M_i nearly singular; observed on the unchanged tree: '
+    'cond 7e10, error 1.7e3 |a|), where cond(M_i) is the condition number of the moment matrix computed by the HARNESS from its '
+    'own exact geometry and the weights the real call used (1 without moment matrix), rowsum_i the absolute row sum of the '
+    'operator, max|f| the magnitude of the field (for a mesh at distance |x| from the origin with vertex spacing h this is '
+    'C 2^-52 (|x|/h) |g| cond(M): the rounding of the field values themselves); the elemental term accounts for femio computing '
+    'the element centres in binary64. Calibration: on the unchanged tree the largest observed error is 1.9 (constants) / 5.7 '
+    '(affine) in units of 2^-52 cond rowsum scale over 12 seeds of a dedicated sweep (offsets 0, 1e3, 1e5, 1e7 element sizes) '
+    'and is recorded by every run in the evidence (calibration_max_error_over_eps_cond_rowsum_scale); C = 1000 leaves two orders '
+    'of magnitude. The earlier tolerance (1e-9 instead of C 2^-52 = 2.2e-13) was 4500 times looser and, multiplied by |x|/h, '
+    'useless far from the origin',
+    'floating point, translation relation: |G(translated) - G(before)|_row <= C 2^-52 (kappa_i + cond(M_i)) cond(M_i) max|G|_row with '
+    'kappa_i = max|x| / min_j |x_j - x_i| (the rounding of the translated coordinates and of the element centres relative to '
+    'the vertex spacing); largest observed on the unchanged tree: 16 units (gauss kernel), recorded per run '
+    '(calibration_max_translation_difference_over_eps_kappa_cond). Not asserted (observation only) when the weights contain '
+    'volumes of hexahedra: femio computes those with a float32 accumulator from absolute positions (relative error ~2^-24 |x|/h, '
+    'C11 "within the float range the method\'s precision supports"); for the same reason hexahedra are volume-weighted only up '
+    'to 1e5 element sizes from the origin (beyond, the float32 kernel returns zero / negative volumes and femio raises). '
+    'Constants -> 0 and affine exactness hold for ANY positive weights and are asserted there with the binary64 tolerance',
+    'floating point, correspondence: the real matrices are compared with the exact rational model within (1e-9 + C 2^-52 (kappa_i '
+    '+ cond(M_i))) cond(M_i) * row scale (np.linalg.inv / sqrt / exp accuracy is runtime, not modelled)',
     'the distance kernel values (exp, gauss) are read back from the real call and are inputs of the model',
-    'normals / normal_weight options are outside the property and not exercised',
+    'normals / normal_weight are outside the quantifier: exercised in the live sequences only (values None, False, True for the '
+    'nodal mode, user-supplied arrays; normals=True in elemental mode raises on every mesh in the unchanged tree and is not '
+    'drawn); with them only constants -> 0, convenience = matrices and history independence are asserted, an exception is '
+    'never a failure',
     'every vertex belongs to an element, volumes and kernel values are positive, vertices are distinct '
     '(guards reported by the driver for every case)',
+    'live sequences: a call that changes the data array it is given or the user data of the object (ids, coordinates, '
+    'connectivity, user variables) changes the field / the mesh the three clauses are stated for, and is reported',
 ]
 TRUSTED = ['C15: capture of volume_adj / kernel matrix by wrapping calculate_data_adjs / calculate_distance_kernel_adj '
-           'on the instance']
+           'on the instance (removed again after every call)']
 
 KERNELS = [None, 'exp', 'gauss']
 
@@ -120,7 +184,7 @@ def nhop(fd, opt):
 
 # ------------------------------------------------------------------ real side
 
-def real_matrices(fd, opt):
+def real_matrices(fd, opt, n_vertices=None):
     """run the real function; returns (grad_adjs, W: dict (i,j)->Fraction, n) with the weight matrix captured"""
     cap = {'d': []}
     ok_ = fd.calculate_distance_kernel_adj
@@ -138,7 +202,7 @@ def real_matrices(fd, opt):
     fd.calculate_distance_kernel_adj = wk
     fd.calculate_data_adjs = wd
     try:
-        g = MG.quiet(fd.calculate_spatial_gradient_adjacency_matrices, **call_kwargs(opt))
+        g = matrices_call(fd, opt, n_vertices)
     finally:
         del fd.calculate_distance_kernel_adj
         del fd.calculate_data_adjs
@@ -164,7 +228,33 @@ def real_matrices(fd, opt):
     return g, W, n
 
 
-def call_kwargs(opt):
+DEFAULTS = {'n_hop': 1, 'kernel': None, 'moment_matrix': False, 'consider_volume': True, 'use_effective_volume': True,
+            'alpha': 1.0, 'order1_only': False, 'normals': None}
+
+
+def normals_arg(opt, n):
+    """the value passed as `normals`: None / False / True, or ('array', seed) = user-supplied (n, 3) unit vectors, a third of
+    them zero (as for interior vertices)"""
+    v = opt.get('normals')
+    if isinstance(v, (list, tuple)):
+        rng = np.random.default_rng(v[1])
+        a = rng.normal(size=(n, 3))
+        a /= np.linalg.norm(a, axis=1)[:, None]
+        a[rng.random(n) < 1 / 3] = 0.
+        return a
+    return v
+
+
+def semantic_normals(opt):
+    """does the `normals` option take part in the operator (femio: only with the moment matrix, and not for None / False)"""
+    v = opt.get('normals')
+    return bool(opt['moment'] and v is not None and v is not False)
+
+
+def call_kwargs(opt, n=None):
+    """keyword arguments of the real call.  opt['style']: 'explicit' (default: every option is passed), 'minimal' (options
+    equal to their documented default are omitted), 'positional' (as explicit; n_hop and kernel are passed positionally by
+    conv_call / matrices_call)"""
     kw = dict(mode=opt['mode'], n_hop=opt['n_hop'], kernel=opt['kernel'], moment_matrix=opt['moment'],
               consider_volume=opt['consider_volume'])
     if opt['mode'] == 'nodal':
@@ -173,14 +263,39 @@ def call_kwargs(opt):
         kw['alpha'] = opt['alpha']
     if opt.get('order1'):
         kw['order1_only'] = True
+    elif 'o1kw' in opt and opt['mode'] == 'nodal':       # first-order mesh: the keyword is legal and changes nothing
+        kw['order1_only'] = bool(opt['o1kw'])
+    if 'normals' in opt:
+        kw['normals'] = normals_arg(opt, n)
+    if opt.get('style') == 'minimal':
+        kw = {k: v for k, v in kw.items() if k == 'mode' or isinstance(v, np.ndarray) or v != DEFAULTS[k]
+              or type(v) is not type(DEFAULTS[k])}
     return kw
 
 
-def conv_call(fd, opt, data):
-    kw = call_kwargs(opt)
+def conv_call(fd, opt, data, n=None):
+    kw = call_kwargs(opt, n)
     mode = kw.pop('mode')
     f = fd.calculate_nodal_spatial_gradients if mode == 'nodal' else fd.calculate_elemental_spatial_gradients
+    if opt.get('style') == 'positional':
+        return MG.quiet(f, data, kw.pop('n_hop'), kw.pop('kernel'), **kw)
     return MG.quiet(f, data, **kw)
+
+
+def matrices_call(fd, opt, n=None):
+    kw = call_kwargs(opt, n)
+    if opt.get('style') == 'positional':
+        return MG.quiet(fd.calculate_spatial_gradient_adjacency_matrices, kw.pop('mode'), kw.pop('n_hop'), kw.pop('kernel'), **kw)
+    return MG.quiet(fd.calculate_spatial_gradient_adjacency_matrices, **kw)
+
+
+def semkey(opt):
+    """identity of the operator an option dict asks for (spelling of the call, field seed etc. removed)"""
+    nv = opt.get('normals')
+    return (opt['mode'], opt['n_hop'], opt['kernel'], bool(opt['moment']), bool(opt['consider_volume']),
+            bool(opt['effective']) if opt['mode'] == 'nodal' and opt['consider_volume'] else None,
+            opt['alpha'] if opt['kernel'] is not None else None, bool(opt.get('order1')),
+            (True if nv is True else tuple(nv)) if semantic_normals(opt) else None, opt.get('scale'))
 
 
 def dense3(g):
@@ -213,16 +328,47 @@ def rank3(vs):
     return r == 3
 
 
+_SPAN = {}
+
+
 def spanning_flags(fd, m, opt):
-    """per vertex: do the difference vectors to the real n-hop neighbours span space (exact)"""
+    """per vertex: do the difference vectors to the real n-hop neighbours span space (exact).  Fast path: when the Gram
+    matrix sum_j d_ij d_ij^T of the float differences (positions relative to their exact mean) has lambda_min > 1e-9
+    lambda_max the exact rank is 3 (the float error of the Gram matrix is ~1e-15 lambda_max); otherwise the rank is decided
+    over the rationals.  Cached per (mesh, mode, real adjacency pattern)."""
     adj = nhop(fd, opt).tocsr()
-    P = positions_exact(graph_mesh(m, opt), opt['mode'])
-    out = []
-    for i in range(adj.shape[0]):
+    key = (id(m['nodes']), id(m['blocks']), opt['mode'], bool(opt.get('order1')), adj.shape,
+           hash(adj.indptr.tobytes()), hash(adj.indices.tobytes()), hash((adj.data != 0).tobytes()))
+    hit = _SPAN.get(key)
+    if hit is not None and hit[0] is m['nodes'] and hit[1] is m['blocks']:
+        return list(hit[2]), adj
+    Pc = geometry(m, opt)[0]
+    n = adj.shape[0]
+    out = None
+    if len(Pc) == n:
+        A = (adj.toarray() != 0)
+        np.fill_diagonal(A, False)
+        D = Pc[None, :, :] - Pc[:, None, :]
+        gram = np.einsum('ij,ija,ijb->iab', A.astype(float), D, D)
+        with np.errstate(all='ignore'):
+            ev = np.linalg.eigvalsh(gram)
+        sure = (ev[:, 0] > 1e-9 * ev[:, 2]) & (ev[:, 2] > 0)
+        out = [True if sure[i] else None for i in range(n)]
+    P = None
+    res = []
+    for i in range(n):
+        if out is not None and out[i]:
+            res.append(True)
+            continue
+        if P is None:
+            P = positions_exact(graph_mesh(m, opt), opt['mode'])
         js = [int(j) for j, x in zip(adj.indices[adj.indptr[i]:adj.indptr[i + 1]], adj.data[adj.indptr[i]:adj.indptr[i + 1]])
               if x != 0 and j != i]
-        out.append(rank3([tuple(a - b for a, b in zip(P[j], P[i])) for j in js]))
-    return out, adj
+        res.append(len(js) >= 3 and rank3([tuple(a - b for a, b in zip(P[j], P[i])) for j in js]))
+    if len(_SPAN) > 256:
+        _SPAN.clear()
+    _SPAN[key] = (m['nodes'], m['blocks'], res)
+    return list(res), adj
 
 
 def min_spread(fd, m, opt, adj):
@@ -250,105 +396,244 @@ def fresh(m):
     return fd
 
 
+# ------------------------------------------------------------------ conditioning of the problem (own computation)
+
+EPS = 2.0 ** -52
+MODEL_MAX_PAIRS = 6000
+CTOL = 1e3            # the modest constant C of the conditioning-derived tolerances (calibration: ASSUMPTIONS)
+_GEO = {}
+
+
+def geometry(m, opt):
+    """(float positions of the graph vertices relative to their exact mean, max |coordinate| of the mesh, exact mean);
+    the harness's own geometry, from the generator's exact rationals"""
+    key = (id(m['nodes']), id(m['blocks']), opt['mode'], bool(opt.get('order1')))
+    hit = _GEO.get(key)
+    if hit is not None and hit[0] is m['nodes'] and hit[1] is m['blocks']:
+        return hit[2]
+    Pex = positions_exact(graph_mesh(m, opt), opt['mode'])
+    c0 = tuple(sum(p[k] for p in Pex) / len(Pex) for k in range(3))
+    Pc = np.array([[float(p[k] - c0[k]) for k in range(3)] for p in Pex])
+    xmax = max(abs(float(x)) for _, p in m['nodes'] for x in p)
+    if len(_GEO) > 64:
+        _GEO.clear()
+    _GEO[key] = (m['nodes'], m['blocks'], (Pc, xmax, c0))
+    return _GEO[key][2]
+
+
+def conditioning(m, opt, W, n):
+    """per graph vertex, from the harness's own geometry and the weights w_ij the real call used (any positive weights
+    satisfy the property): cond_i = condition number of the moment matrix M_i = sum_j w_ij d_ij d_ij^T / |d_ij|^2 (1 without
+    the moment matrix; inf when M_i is singular in binary64), kappa_i = max|x| / min_j |d_ij| = distance of the mesh from
+    the origin in units of the local vertex spacing"""
+    Pc, xmax, _ = geometry(m, opt)
+    if len(Pc) != n:
+        return np.ones(n), np.ones(n)
+    Wd = np.zeros((n, n))
+    for (i, j), v in W.items():
+        if i != j and i < n and j < n:
+            Wd[i, j] = float(v)
+    D = Pc[None, :, :] - Pc[:, None, :]
+    d2 = (D ** 2).sum(axis=2)
+    pair = (Wd != 0) & (d2 > 0)
+    with np.errstate(all='ignore'):
+        hmin = np.sqrt(np.where(pair, d2, np.inf).min(axis=1))
+        kappa = np.where(np.isfinite(hmin) & (hmin > 0), max(xmax, 1e-300) / np.where(hmin > 0, hmin, 1.), 1.)
+        cond = np.ones(n)
+        if opt['moment']:
+            sw = np.where(pair, Wd / np.where(d2 > 0, d2, 1.), 0.)
+            M = np.einsum('ij,ija,ijb->iab', sw, D, D)
+            cond = np.array([np.linalg.cond(x) if np.isfinite(x).all() else np.inf for x in M])
+            cond = np.where(np.isnan(cond), np.inf, np.maximum(cond, 1.))
+    return cond, np.maximum(kappa, 1.)
+
+
+def carriers_exact(m, opt):
+    """exact positions of every row the convenience function expects data for"""
+    return [p for _, p in m['nodes']] if opt['mode'] == 'nodal' else positions_exact(m, 'elemental')
+
+
+def field_matrix(m, opt, fields, P_all):
+    """one column per field (constants, affine fields in binary64 from the float positions, 'centred' affine fields
+    a.(x - c) + b evaluated exactly over the rationals and then rounded, random fields) + two random columns (fseed)"""
+    n_all = len(P_all)
+    cols = []
+    for fld in fields:
+        if fld['kind'] == 'const':
+            c = np.full(n_all, fld['c'])
+        elif fld['kind'] == 'affine' and fld.get('centred'):
+            c0 = geometry(m, opt)[2]
+            a = [F(float(x)) for x in fld['a']]
+            c = np.array([float(sum(a[k] * (p[k] - c0[k]) for k in range(3)) + F(float(fld['b']))) for p in carriers_exact(m, opt)])
+        elif fld['kind'] == 'affine':
+            c = P_all @ np.array(fld['a']) + fld['b']
+        else:
+            c = np.random.default_rng(fld['seed']).normal(size=n_all) * 10
+        cols.append(c)
+    extra = np.random.default_rng(opt.get('fseed', 0)).normal(size=(n_all, 2)) * 10
+    return np.column_stack(cols + [extra[:, 0], extra[:, 1]])
+
+
+def hex_volume_weights(m, opt):
+    """the weights contain volumes of hexahedra: femio computes those with a float32 accumulator from absolute positions
+    (C11: 'within the float range the method's precision supports'), so they are not translation invariant in binary64"""
+    return bool(opt['consider_volume']) and any(t.startswith('hex') for t in m['blocks'])
+
+
 # ------------------------------------------------------------------ oracle (real API only)
 
-def oracle(ctx, m, opt, fields, fd=None, record=True, settle=False):
-    """the property stated on the real implementation; returns list of (signature, what, observed).
+def _evaluate(ctx, m, opt, fields, fd=None, settle=False, origin=None):
+    """the property stated on the real implementation, evaluated on `fd` (default: a freshly built object); returns
+    (failures = list of (signature, what, observed), info (JSON-able), out (arrays for the callers)).
     `settle` (stream same-object, volume weighting only): femio keeps the element volumes it has stored (elemental_data
     'volume', C19 family) when node positions are replaced, and refreshes them as a side effect of some later calls, so the
     first volume-weighted operator after the update may be built with other (still positive) weights than the next one.
     Constants -> 0 and affine exactness hold for every positive weight function and are asserted on every call; the clause
     convenience = explicit matrices compares two successive calls and is therefore evaluated on matrices rebuilt
-    immediately before the convenience call (the difference of the first call is counted as an observation, not asserted)."""
-    fails = []
+    immediately before the convenience call (the difference of the first call is counted as an observation, not asserted).
+    `origin` (stream translated): the same mesh before the translation; the operator of `m` must equal the operator of
+    `origin` (gradients are translation invariant) within the conditioning of the problem."""
+    fails, out = [], {}
     fd = fd or fresh(m)
     span, adj = spanning_flags(fd, m, opt)
+    P_all, sel = carriers(m, opt)        # rows the convenience function takes data for; which of them are graph vertices
+    P = P_all[sel]
+    n_all, nv = len(P_all), int(sel.sum())
+    pristine = field_matrix(m, opt, fields, P_all)
+    data = pristine.copy()
+    nf = len(fields)
+    conv = None
     try:
-        g = MG.quiet(fd.calculate_spatial_gradient_adjacency_matrices, **call_kwargs(opt))
+        if opt.get('conv_first'):
+            conv = conv_call(fd, opt, data, nv)
+        g, W, n = real_matrices(fd, opt, nv)
     except Exception as e:
+        if semantic_normals(opt):      # the normals option is outside the quantifier: an exception there is not a failure
+            return fails, {'singular': True, 'raised': type(e).__name__, 'normals': True}, out
         if not all(span):      # some neighbourhood does not span space: outside the quantifier
-            return fails, {'singular': True, 'raised': type(e).__name__}
+            return fails, {'singular': True, 'raised': type(e).__name__}, out
         if min_spread(fd, m, opt, adj) < 1e-2:
             # the neighbourhoods span space exactly (rank 3 over the rationals) but only just: the difference vectors
             # of some vertex are within 1 % of a plane (e.g. the centroids of a single jittered layer of cells), so
             # the float moment matrix is numerically singular.  Not "a mesh whose vertex neighbourhoods span space"
             # in any robust sense: separate labelled stream, never a failure.
-            return fails, {'singular': True, 'raised': type(e).__name__, 'near_degenerate': True}
+            return fails, {'singular': True, 'raised': type(e).__name__, 'near_degenerate': True}, out
         fails.append((f'raises:{type(e).__name__}', f'operator construction raises {e!r} on a mesh whose neighbourhoods all span space', {}))
-        return fails, {'singular': True, 'raised': type(e).__name__}
+        return fails, {'singular': True, 'raised': type(e).__name__}, out
     G = dense3(g)
     n = G.shape[1]
-    P_all, sel = carriers(m, opt)        # rows the convenience function takes data for; which of them are graph vertices
-    P = P_all[sel]
-    n_all = len(P_all)
     if n != len(P):
         fails.append((f'shape:{opt["mode"]}', f'operator has {n} rows for {len(P)} graph vertices', {'n': n, 'vertices': len(P)}))
-        return fails, {'n': n, 'span_all': bool(all(span)), 'n_nonspanning': 0, 'max_cond': 1.0}
+        return fails, {'n': n, 'span_all': bool(all(span)), 'n_nonspanning': 0, 'max_cond': 1.0}, out
+    cond, kappa = conditioning(m, opt, W, n)
     finite_rows = np.isfinite(G).all(axis=(0, 2))
-    inscope = np.array([(s or not opt['moment']) for s in span]) & finite_rows
-    if not opt['moment']:
-        inscope = finite_rows
+    spanning = np.array(span, bool)
+    inscope = finite_rows & np.isfinite(cond) & (spanning if opt['moment'] else True)
+    condf = np.where(np.isfinite(cond), cond, 1.)
     rowabs = np.abs(np.where(np.isfinite(G), G, 0)).sum(axis=2).max(axis=0)      # (n,)
-    cond = np.ones(n)
-    if opt['moment']:
-        inv = (fd.nodal_data if opt['mode'] == 'nodal' else fd.elemental_data).get_attribute_data('inversed_moment_tensors')
-        with np.errstate(all='ignore'):
-            cond = np.array([np.linalg.cond(x) if np.isfinite(x).all() else np.inf for x in inv])
-        cond = np.where(np.isfinite(cond), np.maximum(cond, 1.), 1.)
-    info = {'n': n, 'span_all': bool(all(span)), 'n_nonspanning': int(n - sum(span)), 'max_cond': float(cond.max())}
+    info = {'n': n, 'span_all': bool(all(span)), 'n_nonspanning': int(n - sum(span)), 'max_cond': float(condf[inscope].max()) if inscope.any() else 1.0,
+            'max_kappa': float(kappa.max())}
+    if opt['moment'] and (spanning & finite_rows & ~np.isfinite(cond)).any():
+        info['rows_singular_in_binary64'] = int((spanning & finite_rows & ~np.isfinite(cond)).sum())
     # clause 1: constants -> 0 (every variant); vertices of a non-spanning neighbourhood carry inf/nan and are skipped
     if not opt['moment'] and not finite_rows.all():
         fails.append((f'nonfinite:{opt["mode"]}', 'operator without moment matrix has non-finite entries',
                       {'rows': np.where(~finite_rows)[0].tolist()[:5]}))
-    for fld in fields:
+    gc = g
+    if settle:
+        gc = matrices_call(fd, opt, nv)
+        info['first_call_differs_from_next'] = not np.array_equal(G, dense3(gc), equal_nan=True)
+    if conv is None:
+        conv = conv_call(fd, opt, data, nv)
+    if not np.array_equal(data, pristine, equal_nan=True):
+        fails.append((f'argument-modified:{opt["mode"]}', 'the convenience function changed the data array it was given', {}))
+    byhand = np.stack([x.dot(pristine[sel]) for x in g], axis=1)            # (n, 3, columns), first-call matrices
+    byhand_c = byhand if gc is g else np.stack([x.dot(pristine[sel]) for x in gc], axis=1)
+    shape_ok = conv.shape == byhand.shape
+    colscale = np.maximum(np.abs(pristine).max(axis=0), 1e-300)
+    worst = 0.
+    exact_claimed = opt['moment'] and not semantic_normals(opt)
+    for k, fld in enumerate(fields):
+        amax = 0.
         if fld['kind'] == 'const':
-            data = np.full((n_all, 1), fld['c'])
-            scale = abs(fld['c'])
             want = np.zeros((n, 3))
-        elif fld['kind'] == 'affine':
+            scale = colscale[k]
+        elif fld['kind'] == 'affine' and exact_claimed:
             a = np.array(fld['a'])
-            data = (P_all @ a + fld['b'])[:, None]
-            scale = float(np.abs(data).max())
+            amax = float(np.abs(a).max())
             want = np.tile(a, (n, 1))
+            # elemental: femio computes the element centres in binary64 from the node positions (rounding of the order of
+            # ulp(max|x|)), which acts like a perturbation of the field by |a|_1 ulp(max|x|)
+            scale = colscale[k] + (float(np.abs(a).sum()) * geometry(m, opt)[1] if opt['mode'] == 'elemental' else 0.)
         else:
-            continue
-        byhand = np.stack([x.dot(data[sel]) for x in g], axis=1)[:, :, 0]
-        conv = conv_call(fd, opt, data)[:, :, 0]
-        if conv.shape != byhand.shape:
-            break          # reported by the convenience clause below
-        tol = 1e-9 * cond * np.maximum(rowabs, 1e-300) * max(scale, 1e-300)
-        if fld['kind'] == 'affine' and not opt['moment']:
-            continue          # the uncorrected operator is not claimed to be exact
-        for name, got in (('matrices', byhand), ('convenience', conv)):
+            continue          # the uncorrected operator (and the Neumann-corrected one) is not claimed to be exact
+        # second term: femio applies the explicitly inverted moment matrix from the left, X (M a) with X = fl(inv(M)); the
+        # left residual X M - I of an LU inverse is of the order 2^-52 cond(M)^2 (visible when kernel weights differing by
+        # many orders of magnitude make M nearly singular although the neighbourhood spans space)
+        unit = EPS * condf * (np.maximum(rowabs, 1e-300) * scale + condf * amax)
+        for name, got in (('matrices', byhand[:, :, k]),) + ((('convenience', conv[:, :, k]),) if shape_ok else ()):
             err = np.abs(got - want).max(axis=1)
-            bad = np.where(inscope & ~(err <= tol))[0]
+            with np.errstate(all='ignore'):
+                r = np.where(inscope, err / unit, 0.)
+            worst = max(worst, float(np.nanmax(r)) if len(r) else 0.)
+            bad = np.where(inscope & ~(err <= CTOL * unit))[0]
             if len(bad):
                 i = int(bad[0])
                 fails.append((f'{fld["kind"]}:{opt["mode"]}:{"moment" if opt["moment"] else "plain"}',
                               f'{fld["kind"]} field: gradient at vertex {i} is {got[i].tolist()} instead of {want[i].tolist()} ({name})',
-                              {'vertex': i, 'got': got[i].tolist(), 'want': want[i].tolist(), 'tol': float(tol[i]),
-                               'n_bad': int(len(bad)), 'field': fld}))
+                              {'vertex': i, 'got': got[i].tolist(), 'want': want[i].tolist(), 'tol': float(CTOL * unit[i]),
+                               'cond': float(condf[i]), 'kappa': float(kappa[i]), 'n_bad': int(len(bad)), 'field': fld}))
                 break
-    # clause 3: convenience = explicit matrices by hand, any field
-    if settle:
-        g2 = MG.quiet(fd.calculate_spatial_gradient_adjacency_matrices, **call_kwargs(opt))
-        info['first_call_differs_from_next'] = not np.array_equal(G, dense3(g2), equal_nan=True)
-        g = g2
-    rng = np.random.default_rng(opt.get('fseed', 0))
-    data = rng.normal(size=(n_all, 2)) * 10
-    byhand = np.stack([x.dot(data[sel]) for x in g], axis=1)
-    conv = conv_call(fd, opt, data)
-    ok = conv.shape == byhand.shape and np.all((np.abs(conv - byhand) <= 1e-12 * (1 + np.abs(byhand))) | ~np.isfinite(byhand))
+    info['max_error_in_units_of_eps_cond_rowsum_scale'] = worst
+    # clause 3: convenience = explicit matrices by hand, any field (all columns)
+    ok = shape_ok and np.all((np.abs(conv - byhand_c) <= 1e-12 * np.maximum(rowabs, 1e-300)[:, None, None] * colscale[None, None, :])
+                             | ~np.isfinite(byhand_c))
     if not ok:
         fails.append((f'convenience:{opt["mode"]}', 'convenience function differs from the explicit matrices applied by hand',
                       {'shape_conv': list(conv.shape), 'shape_byhand': list(byhand.shape),
-                       'maxdiff': float(np.nanmax(np.abs(conv - byhand))) if conv.shape == byhand.shape else None}))
+                       'maxdiff': float(np.nanmax(np.abs(conv - byhand_c))) if shape_ok else None}))
+    # metamorphic relation (stream translated): the operator of the translated mesh = the operator of the mesh before it
+    if origin is not None:
+        try:
+            fd0 = fresh(origin)
+            span0, _ = spanning_flags(fd0, origin, opt)
+            G0 = dense3(matrices_call(fd0, opt, nv))
+        except Exception as e:
+            info['origin_raised'] = type(e).__name__
+            G0 = None
+        if G0 is not None and G0.shape == G.shape:
+            both = inscope & np.isfinite(G0).all(axis=(0, 2)) & (np.array(span0, bool) if opt['moment'] else True)
+            gmax = np.maximum(np.abs(np.where(np.isfinite(G0), G0, 0)).max(axis=(0, 2)), 1e-300)
+            with np.errstate(all='ignore'):
+                dG = np.abs(G - G0).max(axis=(0, 2))
+                unit = EPS * (kappa + condf) * condf * gmax         # (cond^2: both explicit inverses, see clause 2)
+                r = np.where(both, dG / unit, 0.)
+            info['translation_difference_in_units_of_eps_kappa_cond'] = float(np.nanmax(r)) if len(r) else 0.
+            if hex_volume_weights(m, opt):
+                info['translation_relation'] = 'observation only (hex volumes: float32 kernel)'
+            else:
+                bad = np.where(both & ~(dG <= CTOL * unit))[0]
+                if len(bad):
+                    i = int(bad[0])
+                    j = int(np.nanargmax(np.abs(G - G0).max(axis=0)[i]))
+                    fails.append((f'translation:{opt["mode"]}:{"moment" if opt["moment"] else "plain"}',
+                                  f'the operator of the translated mesh differs from the operator of the same mesh before the translation '
+                                  f'(row {i}, column {j}: {G[:, i, j].tolist()} vs {G0[:, i, j].tolist()})',
+                                  {'row': i, 'col': j, 'translated': G[:, i, j].tolist(), 'origin': G0[:, i, j].tolist(),
+                                   'tol': float(CTOL * unit[i]), 'kappa': float(kappa[i]), 'cond': float(condf[i]), 'n_bad': int(len(bad))}))
+    out.update(G=G, g=g, W=W, n=n, conv=conv, shape_ok=shape_ok, pairs=real_matrices.last_pairs, cond=condf, kappa=kappa,
+               inscope=inscope, rowabs=rowabs, data=pristine, sel=sel, span=span, colscale=colscale)
+    return fails, info, out
+
+
+def oracle(ctx, m, opt, fields, fd=None, record=True, settle=False, origin=None):
+    fails, info, _ = _evaluate(ctx, m, opt, fields, fd=fd, settle=settle, origin=origin)
     return fails, info
 
 
 # ------------------------------------------------------------------ correspondence
 
-def model_case(ctx, m, opt, fd, g, W, fields_cols):
+def model_case(ctx, m, opt, W, fields_cols):
     nodal = opt['mode'] == 'nodal'
     toks = ['c15.op', '1' if nodal else '0', str(opt['n_hop']), '1' if opt['moment'] else '0',
             MG.enc_mesh(graph_mesh(m, opt))]
@@ -378,62 +663,65 @@ def model_case(ctx, m, opt, fd, g, W, fields_cols):
     return {'n': n, 'distinct': distinct, 'sumw': sumw, 'dets': dets, 'rows': rows, 'grads': grads}, r[:80]
 
 
-def correspond(ctx, m, opt, fd, fields, caseinfo):
-    span, _ = spanning_flags(fd, m, opt)
-    try:
-        g, W, n = real_matrices(fd, opt)
-    except Exception:
-        ctx.count('stream:real-raised')
-        return
+def correspond(ctx, m, opt, fd, fields, caseinfo, pre=None):
+    """model (exact rationals, Lean driver) vs the real matrices and the convenience function.  `pre` = arrays of an
+    evaluation already made on this object (`_evaluate`), otherwise the calls are made here.  Returns what the live
+    sequences compare later results with: {'grads': (n, 3, fields) model gradients, 'ok_rows', 'tol': (n, fields)}"""
     P_all, sel = carriers(m, opt)
-    if int(sel.sum()) != n:
-        ctx.disagree('vertex count (operator rows vs graph vertices of the generated mesh)', caseinfo, n, int(sel.sum()))
-        return
-    cols, colsf, cols_all = [], [], []
-    for fld in fields:
-        if fld['kind'] == 'const':
-            c = np.full(len(P_all), fld['c'])
-        elif fld['kind'] == 'affine':
-            c = P_all @ np.array(fld['a']) + fld['b']
-        else:
-            c = np.random.default_rng(fld['seed']).normal(size=len(P_all)) * 10
-        cols_all.append(c)                             # what the convenience function is given (all rows)
-        cols.append([float(x) for x in c[sel]])        # what the model is given (graph vertices)
-        colsf.append(c[sel])
-    mod, raw = model_case(ctx, m, opt, fd, g, W, cols)
+    nv = int(sel.sum())
+    nf = len(fields)
+    if pre:
+        g, W, n, pairs, span = pre['g'], pre['W'], pre['n'], pre['pairs'], pre['span']
+        data = pre['data'][:, :nf]
+        conv = pre['conv'][:, :, :nf] if pre['shape_ok'] else pre['conv']
+    else:
+        span, _ = spanning_flags(fd, m, opt)
+        try:
+            g, W, n = real_matrices(fd, opt, nv)
+        except Exception:
+            ctx.count('stream:real-raised')
+            return None
+        pairs = real_matrices.last_pairs
+        data = field_matrix(m, opt, fields, P_all)[:, :nf]
+        conv = None
+    if nv != n:
+        ctx.disagree('vertex count (operator rows vs graph vertices of the generated mesh)', caseinfo, n, nv)
+        return None
+    cols = [[float(x) for x in data[sel, k]] for k in range(nf)]
+    mod, raw = model_case(ctx, m, opt, W, cols)
     if mod is None:
         ctx.disagree('model rejected the case', caseinfo, 'ok', raw)
-        return
+        return None
     if mod['n'] != n:
         ctx.disagree('vertex count', caseinfo, n, mod['n'])
-        return
+        return None
     if not mod['distinct'] or (not opt['moment'] and not mod['sumw']):
         ctx.count('stream:guard-false')
         ctx.notes.append(f'guard false (coincident vertices or zero weight sum) in {caseinfo}')
-        return
+        return None
     # neighbour sets: model (own incidence -> adjacency -> n-hop) vs the real n-hop adjacency
     mp = {k for k in mod['rows'] if k[0] != k[1]}
-    if mp != real_matrices.last_pairs:
-        d = sorted(mp ^ real_matrices.last_pairs)
+    if mp != pairs:
+        d = sorted(mp ^ pairs)
         ctx.disagree('n-hop neighbour sets', {**caseinfo, 'first_differing_pairs': d[:5], 'n_differing': len(d)},
-                     len(real_matrices.last_pairs), len(mp))
-        return
+                     len(pairs), len(mp))
+        return None
     # the exact det test of the model must agree with the exact rank test of the harness (weights positive)
     if opt['moment'] and [bool(d) for d in mod['dets']] != span:
         ctx.disagree('det M_i != 0 (model) vs neighbourhood spans space (exact rank)', caseinfo, span, mod['dets'])
     G = dense3(g)
-    cond = np.ones(n)
-    if opt['moment']:
-        inv = (fd.nodal_data if opt['mode'] == 'nodal' else fd.elemental_data).get_attribute_data('inversed_moment_tensors')
-        with np.errstate(all='ignore'):
-            cond = np.array([np.linalg.cond(x) if np.isfinite(x).all() else 1. for x in inv])
-        cond = np.where(np.isfinite(cond), np.maximum(cond, 1.), 1.)
+    cond, kappa = conditioning(m, opt, W, n)
     Mg = np.zeros_like(G)
     for (i, j), v in mod['rows'].items():
         Mg[:, i, j] = v
-    ok_rows = np.array([bool(d) for d in mod['dets']]) if opt['moment'] else np.ones(n, bool)
+    ok_rows = (np.array([bool(d) for d in mod['dets']]) if opt['moment'] else np.ones(n, bool)) & np.isfinite(cond)
+    cond = np.where(np.isfinite(cond), cond, 1.)
+    # 1e-9 relative to the row scale (np.linalg.inv / sqrt / exp accuracy) + the conditioning of the differences: femio forms
+    # x_j - x_i (elemental: after computing the element centres) in binary64, rounding of the order of ulp(max|x|) / |d_ij|
+    # and the explicit inverse of an ill-conditioned moment matrix (error of the order 2^-52 cond^2 relative to the row scale)
+    rel = (1e-9 + CTOL * EPS * (kappa + cond)) * cond
     scale = np.maximum(np.abs(Mg).max(axis=(0, 2)), 1e-300)
-    tol = 1e-9 * cond * scale
+    tol = rel * scale
     with np.errstate(all='ignore'):
         err = np.abs(G - Mg).max(axis=(0, 2))
     bad = np.where(ok_rows & ~(err <= tol))[0]
@@ -442,31 +730,32 @@ def correspond(ctx, m, opt, fd, fields, caseinfo):
         j = int(np.nanargmax(np.abs(G - Mg).max(axis=0)[i]))
         ctx.disagree('grad_adjs entry', {**caseinfo, 'row': i, 'col': j, 'n_bad_rows': int(len(bad))},
                      G[:, i, j].tolist(), Mg[:, i, j].tolist())
-        return
+        return None
     ctx.count('compared:matrix-rows', int(ok_rows.sum()))
     ctx.count('compared:matrix-entries', int((Mg != 0).any(axis=0)[ok_rows].sum()) * 3)
     # convenience function vs the model's applyRow
-    data = np.stack(cols_all, axis=1)
-    conv = conv_call(fd, opt, data)            # (n, 3, f)
-    if conv.shape != (n, 3, len(fields)):
-        ctx.disagree('convenience function shape', caseinfo, list(conv.shape), [n, 3, len(fields)])
-        return
+    if conv is None:
+        conv = conv_call(fd, opt, data.copy(), nv)            # (n, 3, f)
+    if conv.shape != (n, 3, nf):
+        ctx.disagree('convenience function shape', caseinfo, list(conv.shape), [n, 3, nf])
+        return None
+    mgs = np.stack([np.array(mod['grads'][k]) for k in range(nf)], axis=2)       # (n, 3, f)
+    rowabs = np.abs(Mg).sum(axis=2).max(axis=0)
+    fs = np.maximum(np.abs(data[sel]).max(axis=0), 1e-300)                        # (f,)
+    t2 = (rel * np.maximum(rowabs, 1e-300))[:, None] * fs[None, :]                # (n, f)
     for k, fld in enumerate(fields):
-        mg = np.array(mod['grads'][k])
-        fs = max(float(np.abs(colsf[k]).max()), 1e-300)
-        rowabs = np.abs(Mg).sum(axis=2).max(axis=0)
-        t2 = 1e-9 * cond * np.maximum(rowabs, 1e-300) * fs
         with np.errstate(all='ignore'):
-            e2 = np.abs(conv[:, :, k] - mg).max(axis=1)
-        bad = np.where(ok_rows & ~(e2 <= t2))[0]
+            e2 = np.abs(conv[:, :, k] - mgs[:, :, k]).max(axis=1)
+        bad = np.where(ok_rows & ~(e2 <= t2[:, k]))[0]
         if len(bad):
             i = int(bad[0])
             ctx.disagree('convenience function value', {**caseinfo, 'vertex': i, 'field': fld},
-                         conv[i, :, k].tolist(), mg[i].tolist())
-            return
-    ctx.count('compared:gradient-values', int(ok_rows.sum()) * len(fields))
+                         conv[i, :, k].tolist(), mgs[i, :, k].tolist())
+            return None
+    ctx.count('compared:gradient-values', int(ok_rows.sum()) * nf)
     # literal evaluation of the model's convenience function on small cases
-    if n <= 14 and ctx.rng.random() < .5:
+    # (a fact proved once and for all by C15_convenience: sampled, less often in the quick tier)
+    if n <= 14 and ctx.rng.random() < (.2 if ctx.quick else .5):
         toks = ['c15.conv', '1' if opt['mode'] == 'nodal' else '0', str(opt['n_hop']), '1' if opt['moment'] else '0',
                 MG.enc_mesh(graph_mesh(m, opt)), str(len(W))]
         for (i, j), v in sorted(W.items()):
@@ -475,9 +764,10 @@ def correspond(ctx, m, opt, fd, fields, caseinfo):
         r = ctx.driver.ask(' '.join(toks))
         vals = [int(x) * 2.0 ** -120 for x in r.split()[1:]]
         lit = np.array(vals).reshape(n, 3)
-        if not np.allclose(lit[ok_rows], np.array(mod['grads'][-1])[ok_rows], rtol=1e-12, atol=1e-30):
-            ctx.disagree('model: spatialGradients vs applyRow', caseinfo, lit.tolist(), mod['grads'][-1])
+        if not np.allclose(lit[ok_rows], mgs[:, :, -1][ok_rows], rtol=1e-12, atol=1e-30):
+            ctx.disagree('model: spatialGradients vs applyRow', caseinfo, lit.tolist(), mgs[:, :, -1].tolist())
         ctx.count('compared:literal-spatialGradients')
+    return {'grads': mgs, 'ok_rows': ok_rows, 'tol': t2}
 
 
 # ------------------------------------------------------------------ generation
@@ -499,12 +789,15 @@ def gen_fields(rnd):
             {'kind': 'random', 'seed': rnd.randint(0, 10**6)}]
 
 
+ALPHAS = [1.0, 0.5, 2.0, 0.125, 3.0]
+
+
 def gen_opts(ctx, combos):
     rnd = ctx.rng
     for mode, n_hop, kernel, moment in combos:
         yield {'mode': mode, 'n_hop': n_hop, 'kernel': kernel, 'moment': moment,
                'consider_volume': rnd.random() < .5, 'effective': rnd.random() < .6,
-               'alpha': rnd.choice([1.0, 0.5, 2.0, 0.125]), 'fseed': rnd.randint(0, 10**6)}
+               'alpha': rnd.choice(ALPHAS[:4]), 'fseed': rnd.randint(0, 10**6)}
 
 
 # absolute length scales of the stream `scaled` (cell size in coordinate units; the main stream has cell size ~1): the
@@ -524,6 +817,7 @@ def scale_opt(opt, s):
     resp. s^2, so the weights (up to the common factor s^3 of the volumes) and the condition numbers do not change"""
     out = dict(opt)
     out['scale'] = str(s)
+    out['alpha_unit'], out['length'] = opt['alpha'], float(s)
     out['alpha'] = opt['alpha'] / float(s) ** (2 if opt['kernel'] == 'gauss' else 1)
     return out
 
@@ -546,16 +840,239 @@ def set_positions(fd, m2):
     fd.nodes.data = np.array([[float(v) for v in p] for _, p in m2['nodes']])
 
 
-def history_case(ctx, m, m2, opt0, opt, fields, record=True):
-    """stream `same-object`: operator (opt0) -> node positions replaced through `fem_data.nodes.data = …` -> operator (opt)
-    again on the SAME object, no cache cleared in between.  The property is stated for the mesh as it is now: constants
-    -> 0, affine exactness and convenience = matrices are evaluated by the ordinary oracle against the NEW positions (what
-    a fresh object built from them gives), and the matrices are compared with the model computed from the new positions.
-    Weights are whatever the real call uses (femio keeps the stored element volumes of the old positions: the theorems and
-    the oracle hold for every positive weight function, and the model takes the captured weights; see `settle` in oracle)."""
+# --- stream translated: the mesh far from the origin
+
+OFFSET_MAGNITUDES = [1e3, 1e4, 1e5, 1e6, 1e7]          # in units of the element size
+UNITS = [F(1), F(1, 3), F(3, 10), F(7, 5)]              # length unit of the mesh (non-dyadic: coordinates are not exact floats)
+
+
+def element_size(m):
+    pos = dict(m['nodes'])
+    d = sorted(float(sum((a - b) ** 2 for a, b in zip(pos[c[0]], pos[c[1]]))) ** .5 for b_ in m['blocks'].values() for _, c in b_)
+    return d[len(d) // 2]
+
+
+def gen_offset(rnd, mag, h):
+    """an offset of about mag element sizes: isotropic / anisotropic (projected map coordinates: two large horizontal
+    components of different size and a small height) / one direction only; integer (exactly representable sums) or with
+    a non-dyadic fractional part (translated coordinates are rounded)"""
+    style = rnd.choice(['iso', 'aniso', 'aniso', 'axis'])
+    L = mag * h
+    if style == 'iso':
+        t = [rnd.choice([-1, 1]) * L * rnd.uniform(.4, 1) for _ in range(3)]
+    elif style == 'aniso':
+        t = [L * rnd.uniform(.05, .2), rnd.choice([-1, 1]) * L * rnd.uniform(.5, 1), L * rnd.uniform(1e-5, 1e-3)]
+        rnd.shuffle(t)
+    else:
+        t = [0., 0., 0.]
+        t[rnd.randrange(3)] = rnd.choice([-1, 1]) * L * rnd.uniform(.5, 1)
+    frac = rnd.random() < .5
+    T = tuple(F(int(x)) + (F(rnd.randint(1, 2999), 3000) if frac and x else 0) for x in t)
+    return T, style + ('+fraction' if frac else '+integer')
+
+
+def translated(m, T, unit=F(1)):
+    """the mesh in the length unit `unit`, translated by T, with every coordinate rounded to binary64: exactly the mesh femio
+    is given (the rationals of the result ARE the float coordinates, so the exact model and the exact rank test apply)"""
+    out = dict(m)
+    out['nodes'] = [(i, tuple(F(float(x * unit + t)) for x, t in zip(p, T))) for i, p in m['nodes']]
+    return out
+
+
+# --- live sequences: every option combination of a mesh on ONE object
+
+USER_NODAL, USER_ELEMENTAL = 'user_nodal_field', 'user_elemental_field'
+
+
+def live_object(m):
+    """a freshly built object that carries user data (one nodal and one elemental variable)"""
     fd = fresh(m)
+    rng = np.random.default_rng(len(m['nodes']))
+    MG.quiet(fd.nodal_data.update_data, fd.nodes.ids, {USER_NODAL: rng.normal(size=(len(fd.nodes.ids), 2))})
+    MG.quiet(fd.elemental_data.update_data, fd.elements.ids, {USER_ELEMENTAL: rng.normal(size=(len(fd.elements.ids), 1))})
+    return fd
+
+
+def user_snapshot(fd):
+    """the user's data on the object: ids, coordinates, connectivity, the two user variables"""
+    snap = {'node ids': np.asarray(fd.nodes.ids).tobytes(), 'coordinates': np.asarray(fd.nodes.data).tobytes()}
+    for t, e in fd.elements.items():
+        snap[f'element ids ({t})'] = np.asarray(e.ids).tobytes()
+        snap[f'connectivity ({t})'] = np.asarray(e.data).tobytes()
+    snap['nodal variable'] = np.asarray(fd.nodal_data.get_attribute_data(USER_NODAL)).tobytes() if USER_NODAL in fd.nodal_data else None
+    snap['elemental variable'] = (np.asarray(fd.elemental_data.get_attribute_data(USER_ELEMENTAL)).tobytes()
+                                  if USER_ELEMENTAL in fd.elemental_data else None)
+    return snap
+
+
+def change_one(rnd, m, opt):
+    """the same call with the VALUE of exactly one keyword changed (the names of the keywords that are passed stay the same
+    whenever the keyword was passed before)"""
+    second_order = bool(opt.get('order1'))
+    out = dict(opt)
+    unit_alpha = opt.get('alpha_unit', opt['alpha'])         # alpha in units of the mesh's length scale (stream scaled)
+    keys = ['n_hop', 'kernel', 'moment', 'moment', 'consider_volume', 'consider_volume']
+    if opt['kernel'] is not None:
+        keys += ['alpha', 'alpha']
+    if not second_order:
+        keys += ['mode']
+        if opt['mode'] == 'nodal':
+            keys += ['effective', 'effective', 'o1kw', 'normals']
+        elif opt['moment']:
+            keys += ['normals']
+    if any(t == 'hex2' for t in m['blocks']) or opt.get('no_volume'):
+        keys = [k for k in keys if k != 'consider_volume']          # femio has no hex2 volume / see stream translated
+    k = rnd.choice(keys)
+    if k == 'n_hop':
+        out['n_hop'] = rnd.choice([h for h in (1, 2, 3) if h != opt['n_hop']])
+    elif k == 'kernel':
+        out['kernel'] = rnd.choice([x for x in KERNELS if x != opt['kernel']])
+    elif k == 'alpha':
+        # (gauss: up to 2 only, so that exp(-alpha d^2 / 2) of the farthest 3-hop neighbours does not underflow more often)
+        out['alpha_unit'] = rnd.choice([a for a in (ALPHAS[:4] if opt['kernel'] == 'gauss' else ALPHAS) if a != unit_alpha])
+    elif k in ('moment', 'consider_volume', 'effective'):
+        out[k] = not opt[k]
+    elif k == 'o1kw':
+        out['o1kw'] = not opt.get('o1kw', False)
+    elif k == 'mode':
+        out['mode'] = 'elemental' if opt['mode'] == 'nodal' else 'nodal'
+        out.pop('o1kw', None)
+        if out.get('normals') is True:
+            out['normals'] = None
+    else:       # normals: None / False (no effect), True (nodal only: femio's elemental variant raises on every mesh), user array
+        cur = opt.get('normals', 'absent')
+        vals = [None, False, ['array', rnd.randint(0, 999)]] + ([True] if opt['mode'] == 'nodal' else [])
+        out['normals'] = rnd.choice([v for v in vals if v != cur])
+    if k in ('kernel', 'alpha'):
+        out['alpha'] = min(out.get('alpha_unit', unit_alpha), 2.0 if out['kernel'] == 'gauss' else 9.) \
+            / opt.get('length', 1.) ** (2 if out['kernel'] == 'gauss' else 1)
+    out['changed'] = k
+    return out
+
+
+def gen_steps(rnd, m, opts, n_extra):
+    """the history of one live object: the option combinations of the mesh in shuffled order, each followed by value-only
+    changes of single keywords and by exact repeats of earlier calls; the spelling of every call is drawn too"""
+    base = [dict(o) for o in opts]
+    rnd.shuffle(base)
+    steps = []
+    extra = [len(base) * k // max(n_extra, 1) for k in range(n_extra)]          # after which base option an extra step comes
+    for b, o in enumerate(base):
+        steps.append(o)
+        for _ in range(extra.count(b)):
+            r = rnd.random()
+            if r < .2 and len(steps) > 1:
+                s = dict(rnd.choice(steps[:-1]))
+                s['changed'] = 'repeat of an earlier call'
+            elif r < .3:
+                s = dict(steps[-1])
+                s['changed'] = 'repeat'
+            else:
+                s = change_one(rnd, m, steps[-1])
+                if rnd.random() < .35:          # A, B, A: back to the value before
+                    steps.append(s)
+                    s = dict(steps[-2])
+                    s['changed'] = 'back to the previous value'
+            steps.append(s)
+    for s in steps:
+        s['style'] = rnd.choice(['explicit', 'explicit', 'explicit', 'minimal', 'positional'])
+        s['conv_first'] = rnd.random() < .5
+    return steps
+
+
+def run_sequence(ctx, m, steps, fields, ref=None, count=True):
+    """all steps on ONE live object, nothing cleared or rebuilt in between.  After every step: the three clauses of the
+    property on the live object (`_evaluate`: explicit matrices by hand = clause 3 / (a)), the result of the convenience
+    function compared (b) with the same call on a freshly built equal object and (c) with the exact model (`ref`, computed
+    beforehand on fresh objects so that the history of the live object is not disturbed; computed on demand in replays),
+    the data array and the user data of the object compared with their snapshots.  Returns (index of the failing step or
+    None, failures, info of the last evaluated step)"""
+    ref = {} if ref is None else ref
+    live = live_object(m)
+    snap0 = user_snapshot(live)
+    info = {}
+    nf = len(fields)
+    for k, opt in enumerate(steps):
+        fails, info, out = _evaluate(ctx, m, opt, fields, fd=live)
+        changed = [name for name, v in user_snapshot(live).items() if v != snap0.get(name)]
+        if changed:
+            fails.append((f'user-data-modified:{changed[0].split(" (")[0]}', f'the call changed the {", ".join(changed)} of the object', {}))
+        if count:
+            ctx.count('sequence:steps')
+            ch = opt.get('changed')
+            ctx.count('sequence:step kind:' + ('option combination of the mesh' if ch is None else ch if ch.startswith(('repeat', 'back'))
+                                               else 'value of one keyword changed: ' + ch))
+            ctx.count('sequence:call spelled:' + opt.get('style', 'explicit'))
+        if 'conv' in out and out['shape_ok']:
+            key = semkey(opt)
+            r = ref.get(key)
+            if r is None:
+                f2, i2, o2 = _evaluate(ctx, m, {**opt, 'conv_first': False}, fields)
+                r = ref[key] = {'conv': o2.get('conv'), 'G': o2.get('G'), 'fresh_fails': bool(f2)}
+            tol = 1e-12 * np.maximum(out['rowabs'], 1e-300)[:, None, None] * out['colscale'][None, None, :]
+            if r.get('conv') is not None and r['conv'].shape == out['conv'].shape:
+                with np.errstate(all='ignore'):
+                    d = np.abs(out['conv'] - r['conv'])
+                if not np.all((d <= tol) | ~np.isfinite(r['conv'])):
+                    fails.append((f'differs-from-fresh-object:{opt["mode"]}', 'the convenience function returns something else than the same call on a '
+                                  'freshly built equal object', {'maxdiff': float(np.nanmax(d))}))
+                elif r.get('G') is not None and r['G'].shape == out['G'].shape and not np.all(
+                        (np.abs(out['G'] - r['G']) <= 1e-12 * np.maximum(np.abs(r['G']).max(axis=(0, 2)), 1e-300)[None, :, None]) | ~np.isfinite(r['G'])):
+                    fails.append((f'matrices-differ-from-fresh-object:{opt["mode"]}', 'the explicit matrices differ from those of a freshly built '
+                                  'equal object', {'maxdiff': float(np.nanmax(np.abs(out['G'] - r['G'])))}))
+                if count:
+                    ctx.count('sequence:compared with a freshly built object')
+            mo = r.get('model')
+            if mo is not None and mo['grads'].shape[0] == out['conv'].shape[0]:
+                with np.errstate(all='ignore'):
+                    e = np.abs(out['conv'][:, :, :nf] - mo['grads']).max(axis=1)           # (n, f)
+                bad = mo['ok_rows'][:, None] & ~(e <= mo['tol'])
+                if bad.any():
+                    i, f = (int(x[0]) for x in np.where(bad))
+                    fails.append((f'differs-from-model:{opt["mode"]}', f'the convenience function on the live object differs from the exact model '
+                                  f'(vertex {i}, field {f}: {out["conv"][i, :, f].tolist()} vs {mo["grads"][i, :, f].tolist()})', {}))
+                if count:
+                    ctx.count('sequence:compared with the exact model')
+        if fails:
+            return k, fails, info
+    return None, [], info
+
+
+def sequence_case(ctx, m, opts, fields, ref, n_extra, stream):
+    steps = gen_steps(ctx.rng, m, opts, n_extra)
+    k, fails, info = run_sequence(ctx, m, steps, fields, ref)
+    ctx.case(('sequence', repr(MG.to_json(m)), repr([sorted((a, repr(b)) for a, b in s.items()) for s in steps])),
+             sample={'history': 'sequence on one live object', 'stream': stream, 'mesh': MG.describe(m), 'steps': len(steps),
+                     'first steps': steps[:3]}, nontrivial=len(steps) > 1)
+    ctx.count(f'sequence:histories ({stream})')
+    if fails:
+        caseinfo = {'mesh': MG.to_json(m), 'steps': steps[:k + 1], 'fields': fields,
+                    'history': f'steps 0..{k} evaluated one after another on ONE object (convenience function and explicit matrices); '
+                               'the last step fails'}
+        fresh_bad = ref.get(semkey(steps[k]), {}).get('fresh_fails')
+        for sig, what, obs in fails:
+            if fresh_bad and not sig.startswith(('differs', 'matrices-differ', 'user-data', 'argument')):
+                continue            # the same option already fails on a fresh object: reported there with the simpler replay
+            ctx.fail('sequence:' + sig, f'step {k} of a sequence of calls on one object ({steps[k].get("changed", "next option combination")}): ' + what,
+                     caseinfo, obs)
+
+
+def history_case(ctx, m, m2, opt0, opt, fields, record=True):
+    """stream `same-object`: operator (opt0; explicit matrices and / or convenience function) -> node positions replaced through
+    `fem_data.nodes.data = ...` -> operator (opt) again on the SAME object, no cache cleared in between.  The property is stated
+    for the mesh as it is now: constants -> 0, affine exactness and convenience = matrices are evaluated by the ordinary oracle
+    against the NEW positions (what a fresh object built from them gives), and the matrices are compared with the model computed
+    from the new positions.  Weights are whatever the real call uses (femio keeps the stored element volumes of the old
+    positions: the theorems and the oracle hold for every positive weight function, and the model takes the captured weights;
+    see `settle` in _evaluate)."""
+    fd = fresh(m)
+    first = opt0.get('first', 'matrices')
     try:
-        MG.quiet(fd.calculate_spatial_gradient_adjacency_matrices, **call_kwargs(opt0))
+        if first in ('matrices', 'both'):
+            matrices_call(fd, opt0)
+        if first in ('convenience', 'both'):
+            P0, _ = carriers(m, opt0)
+            conv_call(fd, opt0, field_matrix(m, opt0, fields, P0))
     except Exception as e:      # singular first geometry: the history still continues on the same object
         ctx.count(f'stream:same-object:first call raised {type(e).__name__}')
     set_positions(fd, m2)
@@ -571,7 +1088,8 @@ def history_case(ctx, m, m2, opt0, opt, fields, record=True):
              sample={**short, 'info': info}, nontrivial=info.get('n', 0) >= 4)
     ctx.count('stream:same-object:cases')
     ctx.count(f'stream:same-object:mode:{opt["mode"]}')
-    ctx.count('stream:same-object:first call ' + ('same options' if opt0 == opt else 'other options'))
+    ctx.count(f'stream:same-object:first call through:{first}')
+    ctx.count('stream:same-object:first call ' + ('same options' if semkey(opt0) == semkey(opt) else 'other options'))
     if info.get('singular'):
         ctx.count('stream:same-object:non-spanning (outside the quantifier)')
     if info.get('first_call_differs_from_next'):
@@ -584,12 +1102,16 @@ def history_case(ctx, m, m2, opt0, opt, fields, record=True):
     return fails, info
 
 
-def one_case(ctx, m, opt, fields):
+def one_case(ctx, m, opt, fields, origin=None):
+    """one option combination on a freshly built object: oracle + correspondence with the model; returns what later calls on
+    a live object are compared with"""
     desc = MG.describe(m)
     caseinfo = {'mesh': MG.to_json(m), 'opt': opt, 'fields': fields}
+    if origin is not None:
+        caseinfo['origin'] = MG.to_json(origin)
     short = {'mesh': desc, 'opt': opt}
     fd = fresh(m)
-    fails, info = oracle(ctx, m, opt, fields, fd=fd)
+    fails, info, out = _evaluate(ctx, m, opt, fields, fd=fd, origin=origin)
     nontrivial = info.get('n', 0) >= 4
     if opt.get('order1'):
         # distinct from the first-order stream only when a mid-edge node is stored before some corner node
@@ -608,48 +1130,73 @@ def one_case(ctx, m, opt, fields):
     ctx.count(f'consider_volume:{opt["consider_volume"]}')
     ctx.count('length scale (cell size in coordinate units):' + opt.get('scale', '1'))
     ctx.count('geometry:' + ('jittered' if m.get('jittered') else 'affine' if m.get('affine') else 'grid'))
+    w = info.get('max_error_in_units_of_eps_cond_rowsum_scale')
+    if w is not None:
+        ctx.extra['calibration_max_error_over_eps_cond_rowsum_scale'] = max(
+            w, ctx.extra.get('calibration_max_error_over_eps_cond_rowsum_scale', 0.))
+    w = info.get('translation_difference_in_units_of_eps_kappa_cond')
+    if w is not None and 'translation_relation' not in info:
+        ctx.extra['calibration_max_translation_difference_over_eps_kappa_cond'] = max(
+            w, ctx.extra.get('calibration_max_translation_difference_over_eps_kappa_cond', 0.))
     if info.get('singular'):
         ctx.count(f'stream:{"near-degenerate" if info.get("near_degenerate") else "non-spanning"}(real raised {info.get("raised")}; outside the quantifier)')
     elif opt['moment']:
         ctx.count('stream:all-vertices-spanning' if info['span_all'] else 'stream:some-vertices-non-spanning')
     for sig, what, obs in fails:
         ctx.fail(sig, what, caseinfo, obs)
-    if ctx.driver is not None and not info.get('singular'):
-        correspond(ctx, m, opt, fresh(m), fields, short if not fails else caseinfo)
+    ref = {'conv': out.get('conv'), 'G': out.get('G'), 'fresh_fails': bool(fails)}
+    if ctx.quick and len(out.get('W', ())) > MODEL_MAX_PAIRS:
+        # exact rational arithmetic on (nearly) complete graphs of > 100 vertices takes the driver 5 .. 20 s per case
+        ctx.count('stream:model skipped in the quick tier (more than 6000 neighbour pairs; oracle only)')
+    elif ctx.driver is not None and not info.get('singular') and 'conv' in out:
+        ref['model'] = correspond(ctx, m, opt, fd, fields, short if not fails else caseinfo, pre=out)
+    return ref
+
+
+def mesh_cases(ctx, m, opts, fields, n_extra, stream, origin=None):
+    """all option combinations drawn for one mesh: first each on its own freshly built object (oracle, model), then all of
+    them - with value-only changes and repeats in between - one after another on ONE live object"""
+    fseed = ctx.rng.randint(0, 10**6)
+    ref = {}
+    for opt in opts:
+        opt['fseed'] = fseed          # the same data for every call on this mesh, so that results are comparable
+        ref[semkey(opt)] = one_case(ctx, m, opt, fields, origin=origin)
+    sequence_case(ctx, m, opts, fields, ref, n_extra, stream)
 
 
 def run(ctx):
     rnd = ctx.rng
     combos = list(itertools.product(['nodal', 'elemental'], [1, 2, 3], KERNELS, [True, False]))   # 36
-    reps = ctx.n(4, 14)
+    reps = ctx.n(3, 12)
+    per_mesh = 4
     n_meshes = 0
     for rep in range(reps):
         rnd.shuffle(combos)
-        # one mesh per 3 option combinations, kinds alternate
-        for k, opt in enumerate(gen_opts(ctx, combos)):
-            if k % 3 == 0:
-                kind = ['tet', 'hex'][(k // 3 + rep) % 2]
-                big = (not ctx.quick and rnd.random() < .4) or (opt['mode'] == 'elemental' and kind == 'hex')
-                m = gen_mesh(ctx, kind, big)
-                n_meshes += 1
-            one_case(ctx, m, opt, gen_fields(rnd))
+        # one mesh per 4 option combinations, kinds alternate
+        for k in range(0, len(combos), per_mesh):
+            opts = list(gen_opts(ctx, combos[k:k + per_mesh]))
+            kind = ['tet', 'hex'][(k // per_mesh + rep) % 2]
+            big = (not ctx.quick and rnd.random() < .4) or (kind == 'hex' and any(o['mode'] == 'elemental' for o in opts))
+            m = gen_mesh(ctx, kind, big)
+            n_meshes += 1
+            mesh_cases(ctx, m, opts, gen_fields(rnd), ctx.n(6, 8), 'main')
     # stream order1: second-order meshes differentiated on their first-order vertices (order1_only=True); drawn after
     # the main stream so that the main stream's cases do not depend on it
     o1 = list(itertools.product([1, 2, 3], KERNELS, [True, True, False]))        # 27, moment-corrected twice as often
     for rep in range(ctx.n(1, 3)):
         rnd.shuffle(o1)
-        for k, (n_hop, kernel, moment) in enumerate(o1[:ctx.n(15, 27)]):
-            if k % 3 == 0:
-                if (k // 3 + rep) % 3 == 2:
-                    m = promote_hex2(rnd, gen_mesh(ctx, 'hex', False))
-                else:
-                    m = last_tet2 = MG.promote_tet2(rnd, gen_mesh(ctx, 'tet', False))
-                n_meshes += 1
+        sel = o1[:ctx.n(15, 27)]
+        for k in range(0, len(sel), 3):
+            if (k // 3 + rep) % 3 == 2:
+                m = promote_hex2(rnd, gen_mesh(ctx, 'hex', False))
+            else:
+                m = last_tet2 = MG.promote_tet2(rnd, gen_mesh(ctx, 'tet', False))
+            n_meshes += 1
             # tet2: effective-volume weighting or none (see the probe below); hex2: femio has no hex2 volume
-            opt = {'mode': 'nodal', 'n_hop': n_hop, 'kernel': kernel, 'moment': moment, 'order1': True,
-                   'consider_volume': m['kind'] == 'tet2' and rnd.random() < .5, 'effective': True,
-                   'alpha': rnd.choice([1.0, 0.5, 2.0, 0.125]), 'fseed': rnd.randint(0, 10**6)}
-            one_case(ctx, m, opt, gen_fields(rnd))
+            opts = [{'mode': 'nodal', 'n_hop': n_hop, 'kernel': kernel, 'moment': moment, 'order1': True,
+                     'consider_volume': m['kind'] == 'tet2' and rnd.random() < .5, 'effective': True,
+                     'alpha': rnd.choice(ALPHAS[:4])} for n_hop, kernel, moment in sel[k:k + 3]]
+            mesh_cases(ctx, m, opts, gen_fields(rnd), ctx.n(3, 4), 'order1')
     # stream scaled: the same kind of meshes in other length units (cell size 1/1024, 500, 2000 coordinate units; the
     # kernel parameter scaled along so that the problem is similar); inside the quantifier (the property is scale free),
     # tolerances are relative to the row scale of the operator and the magnitude of the field as everywhere else.
@@ -661,12 +1208,68 @@ def run(ctx):
             m = scaled(gen_mesh(ctx, kind, kind == 'hex' or rnd.random() < .3), s)
             n_meshes += 1
             rnd.shuffle(sc)
-            for opt in list(gen_opts(ctx, sc[:ctx.n(6, 9)])):
+            opts = []
+            for opt in list(gen_opts(ctx, sc[:ctx.n(5, 8)])):
                 opt['consider_volume'] = rnd.random() < .7
-                fields = gen_fields(rnd)
-                fields[1]['b'] *= float(s)
+                opts.append(scale_opt(opt, s))
                 ctx.count('stream:scaled:cases')
-                one_case(ctx, m, scale_opt(opt, s), fields)
+            fields = gen_fields(rnd)
+            fields[1]['b'] *= float(s)
+            mesh_cases(ctx, m, opts, fields, ctx.n(2, 3), 'scaled')
+    # stream translated: the mesh far from the origin (offsets 1e3 .. 1e7 element sizes; isotropic, anisotropic as in projected
+    # map coordinates, along one axis; integer or with a fractional part; mesh in a non-dyadic length unit so that coordinates
+    # are genuinely rounded).  Inside the quantifier: the property holds for every mesh and gradients are translation
+    # invariant; an exact-rational model cannot see absolute-position formulas (they are equal over Q), the oracle can.
+    # Every mode x hop count x kernel appears with the moment matrix over the stream; fields: constants, an affine field with
+    # values of the size of the coordinates, an affine field centred at the mesh (values of the size of the mesh)
+    tr = list(itertools.product(['nodal', 'elemental'], [1, 2, 3], KERNELS, [True, True, False]))        # 54
+    rnd.shuffle(tr)
+    tr.sort(key=lambda c: not c[3])                                     # the 36 moment-corrected ones first
+    tr = tr[:ctx.n(36, 54)]
+    rnd.shuffle(tr)
+    per = 6
+    shift = rnd.randrange(len(OFFSET_MAGNITUDES))
+    for k in range(0, len(tr), per):
+        kind = ['tet', 'hex'][(k // per) % 2]
+        base = gen_mesh(ctx, kind, kind == 'hex')
+        unit = rnd.choice(UNITS)
+        mag = OFFSET_MAGNITUDES[(k // per + shift) % len(OFFSET_MAGNITUDES)]          # meshes 1..5: every magnitude once
+        if k == 0:          # once per run the literal example: UTM coordinates, metre-size elements
+            T, style = (F(431250), F(3912500), F(128)), 'utm'
+            unit = F(1) / max(F(1), F(round(element_size(base))))
+        else:
+            T, style = gen_offset(rnd, mag, element_size(base) * float(unit))
+        m0, m = translated(base, (0, 0, 0), unit), translated(base, T, unit)
+        n_meshes += 1
+        opts = list(gen_opts(ctx, tr[k:k + per]))
+        kap = max(abs(float(x)) for x in T) / (element_size(base) * float(unit))
+        for opt in opts:
+            opt['scale'] = f'translated x{10 ** round(np.log10(max(kap, 1))):.0e}'
+            opt['consider_volume'] = rnd.random() < .6
+            if kind == 'hex' and kap > 2e5:
+                opt['no_volume'] = True
+            if opt.get('no_volume') and opt['consider_volume']:
+                # hex volumes come from femio's float32 centroid kernel on absolute positions: beyond ~1e5 element sizes it
+                # cannot resolve the cell any more (zero / negative volumes; C11: 'within the float range the method's
+                # precision supports'), so volume weighting of hexahedra is exercised up to 1e5 element sizes only
+                opt['consider_volume'] = False
+                ctx.count('stream:translated:hex volume weighting switched off beyond 1e5 element sizes (float32 volume kernel, C11 scope)')
+            ctx.count('stream:translated:cases')
+            ctx.count(f'stream:translated:offset in element sizes ~1e{round(np.log10(max(kap, 1)))}')
+        ctx.count(f'stream:translated:offset style:{style}')
+        a = gen_fields(rnd)
+        fields = [a[0], a[1], {**a[1], 'centred': True, 'b': a[1]['b'] / 8}, {**a[2], 'centred': True}, a[3]]
+        mesh_cases(ctx, m, opts, fields, ctx.n(2, 3), 'translated', origin=m0)
+    # observation stream (never reported through fail): volume-weighted operator of a hex mesh 1e7 element sizes from the origin
+    # (femio's float32 hex volume kernel cannot resolve the cells there: zero / negative / NaN volumes; C11 precision scope)
+    try:
+        hb = gen_mesh(ctx, 'hex', True)
+        L = 1e7 * element_size(hb)
+        MG.quiet(fresh(translated(hb, (F(int(L)), F(int(.7 * L)), F(int(.4 * L))))).calculate_spatial_gradient_adjacency_matrices,
+                 mode='nodal', moment_matrix=True, consider_volume=True)
+        ctx.count('stream:translated:hex volume weighting at 1e7 element sizes(observation only):ok')
+    except Exception as e:
+        ctx.count(f'stream:translated:hex volume weighting at 1e7 element sizes(observation only):real raised {type(e).__name__}')
     # stream same-object: history on ONE object (operator, positions replaced through the public setter, operator again)
     hs = list(itertools.product(['elemental', 'elemental', 'nodal'], [1, 2, 3], KERNELS, [True, True, False]))
     rnd.shuffle(hs)
@@ -682,6 +1285,7 @@ def run(ctx):
             m2 = remap(rnd, m)
             n_meshes += 1
         opt0 = dict(opt) if rnd.random() < .5 else {**next(gen_opts(ctx, [rnd.choice(hs)])), 'mode': opt['mode']}
+        opt0['first'] = ['matrices', 'convenience', 'both'][k % 3]
         history_case(ctx, m, m2, opt0, opt, gen_fields(rnd))
     # observation stream (never reported through fail): order1_only with mean-volume weighting on a second-order mesh
     try:
@@ -698,7 +1302,11 @@ def replay(ctx, obj):
     m = MG.from_json(case['mesh'])
     if 'mesh2' in case:       # stream same-object: re-run the history
         fails, info = history_case(ctx, m, MG.from_json(case['mesh2']), case['opt0'], case['opt'], case['fields'], record=False)
+    elif 'steps' in case:     # sequence of calls on one live object: re-run it (references on fresh objects computed on demand)
+        k, fails, info = run_sequence(ctx, m, case['steps'], case['fields'], None, count=False)
+        fails = [('sequence:' + s, f'step {k}: ' + w, o) for s, w, o in fails]
     else:
-        fails, info = oracle(ctx, m, case['opt'], case['fields'])
+        fails, info = oracle(ctx, m, case['opt'], case['fields'],
+                             origin=MG.from_json(case['origin']) if 'origin' in case else None)
     return {'fails': bool(fails), 'failures': [{'signature': s, 'what': w, 'observed': o} for s, w, o in fails],
             'info': info}
